@@ -23,10 +23,24 @@ blocks with a 64-bit index and says nothing about a wrap, and the library's
 Both library paths are exercised with the same cases: build `hw` (all CPU
 features: AES-NI block + bulk CTR code) and build `sw` (no AES-NI compiled in:
 OpenSSL AES_encrypt + the portable incremental CTR loop).
+
+Allocation-failure histories (`oomhist`, harness/common/aes_oomhist.[ch]): which
+implementation serves a key is process-global state decided on first use, and
+the two implementations use different expanded-key formats.  For each history
+in OOM_SPECS (key 1 of 16 or 32 bytes, optionally crypto_aes_can_use_intrinsics,
+key 2, blocks, CTR streams / crypto_aesctr_buf / a re-initialised stream object
+with every live key, frees) a fault-free process counts the N allocation
+attempts of the library; then one FRESH process per k = 1..N runs the same
+history with exactly the k-th attempt failing once (memory is back afterwards).
+A call may report failure (NULL) only if an allocation was refused inside it;
+every value that is produced - by the call that saw the failure (the start-up
+self-test absorbs one) and by every later call, with every key - must equal
+refaes, and nothing may crash.
 """
 import hashlib
 import os
 import random
+import re
 import shutil
 import subprocess
 import threading
@@ -716,6 +730,98 @@ def second_opinion(c, ans):
     return n, None
 
 
+# ---- allocation-failure histories, one fresh process each --------------------
+# steps: a/A = expand key 1 from 16/32 bytes, b/B = key 2, i = crypto_aes_can_use_
+# intrinsics(), e = blocks, s = crypto_aesctr_init + stream calls + free, u =
+# crypto_aesctr_buf (twice), l = crypto_aesctr_alloc + init2 per key + init2(NULL),
+# x/y = free key 1/2, m = library blocks 8 mod 16 (harness/common/aes_oomhist.h)
+OOM_SPECS = [
+    'AiBesul',      # 256-bit key first, implementation queried, then a 128-bit key
+    'aBesul',       # 128-bit key first; only the second expansion can choose again
+    'Asuebesul',    # key 1 is used by CTR (which asks for the implementation) before key 2 exists
+    'aiesul',       # a single key
+    'aixBesuly',    # key 1 is freed after the implementation was queried again
+    'mABesxeuly',   # both 256-bit, blocks 8 mod 16, key 1 freed while key 2 stays in use
+]
+OOM_ANS = re.compile(r'^n=(\d+) nf=(\d+) bad=(\d+) ev=(\S+)')
+
+
+def oom_case(bname, spec, k, seed):
+    return {'kind': 'oomhist', 'line': 'oomhist %d %s %d' % (k, spec, seed), 'expect': '',
+            'sig': sig('O', bname, spec, k), 'nt': k > 0,
+            'meta': {'build': bname, 'oomhist': [k, spec, seed]}}
+
+
+def oom_judge(c, ans):
+    k, spec, _ = c['meta']['oomhist']
+    m = OOM_ANS.match(ans)
+    if not m:
+        return ('oracle:oomhist', 'history %s, allocation %d fails: unparsable answer %r'
+                % (spec, k, ans[:200]))
+    toks = m.group(4).split(',')
+    bad = [t for t in toks if 'BAD' in t or 'SPURIOUS' in t]
+    if bad or int(m.group(3)):
+        return ('oracle:oomhist', 'build %s, history %s in a fresh process, allocation attempt '
+                '%d of the library fails once: %s (step+key=BAD@offset:library:refaes; events: %s)'
+                % (c['meta']['build'], spec, k, ' '.join(bad)[:400], m.group(4)[:500]))
+    return None
+
+
+def run_oom(a):
+    """All processes of one (build, history): k = 0 (count the attempts), then
+    one process per failing attempt.  -> shard result."""
+    bname, exe, spec, seed = a
+    res = {'evals': 0, 'sigs': set(), 'alarms': [], 'stats': {}, 'intr': {}, 'harness': [],
+           'samples': [], 'far': [], 'oom': {}}
+    box = {}
+
+    def one(k):
+        c = oom_case(bname, spec, k, seed)
+        box.clear()
+
+        def j(case, ans):
+            box['ans'] = ans
+            return oom_judge(case, ans)
+
+        r = core.line_shard(exe, [c], judge=j, timeout=300,
+                            args=['oomhist', str(k), spec, str(seed)])
+        res['evals'] += r['evals']
+        res['sigs'] |= r['sigs']
+        res['alarms'] += r['alarms']
+        m = OOM_ANS.match(box.get('ans', ''))
+        return (int(m.group(1)), int(m.group(2)), m.group(4).split(',')) if m else None
+
+    st = res['stats']
+    r0 = one(0)
+    info = {'attempts': None, 'processes': 1, 'reported_null': 0, 'absorbed': 0}
+    res['oom']['%s %s' % (bname, spec)] = info
+    if r0 is None:
+        return res              # the fault-free history died: the alarm stands
+    n, nf, ev0 = r0
+    info['attempts'] = n
+    if nf or n < 1 or any(t.endswith('=null') for t in ev0):
+        res['harness'].append('oomhist %s %s: the fault-free run refused %d of %d attempts (%s)'
+                              % (bname, spec, nf, n, ','.join(ev0)[:200]))
+        return res
+    for k in range(1, n + 1):
+        r = one(k)
+        info['processes'] += 1
+        if r is None:
+            continue
+        if r[1] != 1:
+            res['harness'].append('oomhist %s %s: attempt %d of %d was not reached (%d refused)'
+                                  % (bname, spec, k, n, r[1]))
+            continue
+        nulls = sum(1 for t in r[2] if t.endswith('=null'))
+        info['reported_null'] += nulls
+        info['absorbed'] += (nulls == 0)
+        st['oomhist_failures_injected'] = st.get('oomhist_failures_injected', 0) + 1
+    st['cases_oomhist_' + bname] = info['processes']
+    st['oomhist_calls_that_reported_failure'] = info['reported_null']
+    st['oomhist_failures_absorbed_by_selftest_fallback'] = info['absorbed']
+    return res
+
+
 # ---- running --------------------------------------------------------------
 def run_cases(exes, cases, so_every, timeout=900):
     """Run the same cases through every build; returns a shard result."""
@@ -784,7 +890,8 @@ def build(ctx):
         objs = ctx.builder.lib('asan', SRCS, cpu=cpu)
         exes.append((bname, ctx.builder.driver('c02-' + bname, 'asan',
                                                ['c02_aes.c', 'common/refaes.c',
-                                                'common/wrapalloc.c'], objs, cpu=cpu,
+                                                'common/wrapalloc.c',
+                                                'common/aes_oomhist.c'], objs, cpu=cpu,
                                                wraps=['malloc', 'calloc', 'realloc', 'free',
                                                       'strdup'],
                                                defs=['VH_WRAPALLOC'])))
@@ -798,10 +905,26 @@ def run(ctx):
     longs = long_cases(ctx.seed, ctx.tier)
     # one pool for everything: the long streams run beside the shards
     # (each long case runs on both builds; split per build for balance)
-    tasks = [('L', ([e], c)) for c in longs for e in exes] + \
+    ooms = [('O', (b, e, spec, ctx.seed)) for b, e in exes for spec in OOM_SPECS]
+    tasks = [('L', ([e], c)) for c in longs for e in exes] + ooms + \
             [('S', (exes, seeds[i], ctx.tier, i, n)) for i in range(n)]
     res = core.pmap(_task, tasks)
     core.merge(ctx, res)
+    # allocation-failure histories: what was executed
+    oom = {}
+    for r in res:
+        oom.update(r.get('oom', {}))
+    ctx.cov['alloc_failure_histories'] = {
+        'steps': 'a/A key 1 from 16/32 bytes, b/B key 2, i crypto_aes_can_use_intrinsics, e blocks, '
+                 's crypto_aesctr_init+stream calls+free, u crypto_aesctr_buf twice, l crypto_aesctr_'
+                 'alloc+init2 per key+init2(NULL), x/y free key 1/2, m library blocks 8 mod 16',
+        'per_build_and_history': oom}
+    ctx.count('oomhist_histories', len(oom))
+    missing = [k for k in ('%s %s' % (b, spec) for b, _ in exes for spec in OOM_SPECS)
+               if k not in oom or not oom[k]['attempts'] or
+               oom[k]['processes'] != oom[k]['attempts'] + 1]
+    if missing and not ctx.violations and not ctx.known_hits:
+        ctx.note_inconclusive('allocation-failure histories not fully executed: %r' % missing)
     for r in res:
         for h in r['harness']:
             ctx.note_inconclusive('oracle self-check: ' + h)
@@ -870,9 +993,16 @@ def run(ctx):
         'call); the expected bytes are the model at the absolute block index (refaes; every 4th '
         'recomputed by `openssl enc -aes-*-ctr -iv be64(nonce)||be64(start block)`); '
         'all cases run on the AES-NI build and on the build without CPU '
-        'features.  non-trivial = block case, or stream with >= 2 calls that straddles a block '
+        'features.  Allocation-failure histories: for each of ' + str(len(OOM_SPECS)) +
+        ' histories (' + ', '.join(OOM_SPECS) + '; steps in alloc_failure_histories) and each '
+        'build, a fault-free process counts the N allocation attempts of the library, then one '
+        'FRESH process per k = 1..N runs the history with exactly the k-th attempt failing once; '
+        'a call may report failure (NULL) only if an allocation was refused inside it, every '
+        'value produced by that call and by all later calls with every key must equal refaes, '
+        'no sanitizer report, no crash.  non-trivial = block case, or stream with >= 2 calls that straddles a block '
         'boundary or has >= 32 bytes; distinct = distinct (build, key size, flags, length, '
-        'partition shape; far-offset: boundary exponent, d, crossing kind, flags, number of calls)')
+        'partition shape; far-offset: boundary exponent, d, crossing kind, flags, number of calls; '
+        'allocation-failure history: build, history, k >= 1)')
     ctx.cov['sanitizers'] = 'gcc -fsanitize=address,undefined; exact-size heap blocks for keys, blocks, per-call buffers'
     ctx.assumptions += [
         'refaes.c implements FIPS-197 (self-checked on the appendix A/B/C vectors and SP 800-38A '
@@ -889,12 +1019,19 @@ def run(ctx):
 
 
 def _task(t):
-    return _long(t[1]) if t[0] == 'L' else _shard(t[1])
+    return _long(t[1]) if t[0] == 'L' else run_oom(t[1]) if t[0] == 'O' else _shard(t[1])
 
 
 def replay(ctx, case):
     exes = dict(build(ctx))
     b = case.get('meta', {}).get('build', 'hw')
+    if case.get('kind') == 'oomhist':
+        k, spec, seed = case['meta']['oomhist']
+        c = oom_case(b, spec, k, seed)
+        r = core.line_shard(exes[b], [c], judge=oom_judge, timeout=300,
+                            args=['oomhist', str(k), spec, str(seed)])
+        core.merge(ctx, [r])
+        return
     c = dict(case)
     c.setdefault('expect', '')
     c['sig'] = 0
